@@ -5,7 +5,13 @@
           2 add_class(c, prepend)         3 add_style(s, prepend)  (s must end with ;)
         returns (construction error or the text the attribute writer emits for the final
         attribute map, one entry per attribute)
-     2  html_escape(s, attr=True): model, spec, decoded again *)
+     2  html_escape(s, attr=True): model, spec, decoded again
+     3  program: several tags built one after the other; an attribute-dict argument of a later
+        construction / update may be the attribute map of an earlier tag (given back as a
+        mapping: tag.attrs itself, dict(tag.attrs), the dict returned by consolidate_attrs,
+        the attrs of a copy, expanded into keywords ...), or that of the tag operated on.
+        Additional operations: 4 item-assign every item of such a map, 5 add_class of the
+        class value of such a map.  Returns, per tag, what opcode 1 returns. *)
 From HT Require Import Model.Str Model.Sx Model.Tree Model.Codec Model.Escape Model.Render
      Model.Attrs Model.DriverC15 Spec.CharMap.
 
@@ -49,8 +55,111 @@ Definition step3 (st : attrs) (o : op3) : attrs * option err :=
 Definition final3 (st : attrs) (ops : list op3) : attrs :=
   fold_left (fun s o => fst (step3 s o)) ops st.
 
+(* ---- programs: attribute maps flowing from one tag into another ------------------------- *)
+(* a dict argument: a literal dict, or the attribute map of tag number k of the program as a
+   mapping (dict_of_attrs: the stored values, marks included) *)
+Inductive darg := DLit (d : pydict) | DRef (k : nat).
+
+Definition darg_of_sx (x : sx) : option darg :=
+  match x with
+  | L [A 0; d] => option_map DLit (pydict_of_sx d)
+  | L [A 1; k] => option_map DRef (nat_of_sx k)
+  | _ => None
+  end.
+
+Definition resolve (sts : list attrs) (d : darg) : pydict :=
+  match d with
+  | DLit d' => d'
+  | DRef k => dict_of_attrs (nth k sts [])
+  end.
+
+Inductive pop :=
+| PUpdate (ds : list darg) (kw : darg)
+| PSet (k : str) (v : attrarg)
+| PAddClass (c : attrarg) (prepend : bool)
+| PAddStyle (s : attrarg) (prepend : bool)
+| PSetAll (k : nat)                       (* for n, v in list(m.items()): t.attrs[n] = v *)
+| PAddClassOf (k : nat) (prepend : bool). (* t.add_class(m.get(class), prepend=...)       *)
+
+Definition pop_of_sx (x : sx) : option pop :=
+  match x with
+  | L [A 0; ds; kw] => match list_of_sx darg_of_sx ds, darg_of_sx kw with
+                       | Some ds', Some kw' => Some (PUpdate ds' kw')
+                       | _, _ => None
+                       end
+  | L [A 1; k; v] => match str_of_sx k, attrarg_of_sx v with
+                     | Some k', Some v' => Some (PSet k' v')
+                     | _, _ => None
+                     end
+  | L [A 2; c; p] => match attrarg_of_sx c, bool_of_sx p with
+                     | Some c', Some p' => Some (PAddClass c' p')
+                     | _, _ => None
+                     end
+  | L [A 3; c; p] => match attrarg_of_sx c, bool_of_sx p with
+                     | Some c', Some p' => Some (PAddStyle c' p')
+                     | _, _ => None
+                     end
+  | L [A 4; k] => option_map PSetAll (nat_of_sx k)
+  | L [A 5; k; p] => match nat_of_sx k, bool_of_sx p with
+                     | Some k', Some p' => Some (PAddClassOf k' p')
+                     | _, _ => None
+                     end
+  | _ => None
+  end.
+
+Definition cls : str := [99;108;97;115;115].
+
+(* earlier: the final maps of the tags built before; the tag operated on has the next
+   number, so a reference to it sees its current map *)
+Definition pstep (earlier : list attrs) (st : attrs) (o : pop) : attrs :=
+  let sts := earlier ++ [st] in
+  match o with
+  | PUpdate ds kw => fst (attrs_update st (map (resolve sts) ds) (resolve sts kw))
+  | PSet k v => fst (attrs_setitem st k v)
+  | PAddClass c p => fst (helper_update cls c p st)
+  | PAddStyle s p => fst (helper_update [115;116;121;108;101] s p st)
+  | PSetAll k =>
+    fold_left (fun s kv => fst (attrs_setitem s (fst kv) (snd kv))) (resolve sts (DRef k)) st
+  | PAddClassOf k p => fst (helper_update cls (get_arg cls (nth k sts [])) p st)
+  end.
+
+Record stage := { st_dicts : list darg; st_kw : darg; st_ops : list pop }.
+
+Definition stage_of_sx (x : sx) : option stage :=
+  match x with
+  | L [ds; kw; ops] =>
+    match list_of_sx darg_of_sx ds, darg_of_sx kw, list_of_sx pop_of_sx ops with
+    | Some ds', Some kw', Some ops' => Some {| st_dicts := ds'; st_kw := kw'; st_ops := ops' |}
+    | _, _, _ => None
+    end
+  | _ => None
+  end.
+
+(* a construction that raises leaves no tag: the harness continues with an attribute-less one *)
+Definition run_stage (earlier : list attrs) (s : stage) : res attrs :=
+  match attrs_new (map (resolve earlier) (st_dicts s)) (resolve earlier (st_kw s)) with
+  | Err e => Err e
+  | Ok a => Ok (fold_left (pstep earlier) (st_ops s) a)
+  end.
+
+Fixpoint run_stages (earlier : list attrs) (ss : list stage) : list (res attrs) :=
+  match ss with
+  | [] => []
+  | s :: ss' =>
+    let r := run_stage earlier s in
+    r :: run_stages (earlier ++ [match r with Ok a => a | Err _ => [] end]) ss'
+  end.
+
+Definition sx_emitted (a : attrs) : sx :=
+  L (map (fun kv => L [sx_str (fst kv); sx_str (attr_str kv)]) a).
+
 Definition run_c03 (x : sx) : sx :=
   match x with
+  | L [A 3; ss] =>
+    match list_of_sx stage_of_sx ss with
+    | Some ss' => L (map (sx_res sx_emitted) (run_stages [] ss'))
+    | None => sx_bad
+    end
   | L [A 1; ds; kw; ops] =>
     match list_of_sx pydict_of_sx ds, pydict_of_sx kw, list_of_sx op3_of_sx ops with
     | Some ds', Some kw', Some ops' =>
